@@ -39,7 +39,8 @@ var cache = map[int]struct {
 
 // TestKeyPair returns the DER of an X.509 certificate for example.org and the matching ECDSA P-256 private
 // key.  which == 0: the repository's own test certificate/key; which >= 1: a freshly generated self-signed
-// certificate with its own key (a "foreign" certificate).
+// certificate with its own key (a "foreign" certificate), except which == 2: a different self-signed certificate for
+// the SAME key as certificate 0.
 // Symbolically: DER is a fixed byte string, the key an opaque object; x509.ParseCertificate on that DER yields
 // a certificate whose PublicKey is the matching opaque P-256 public key.
 func TestKeyPair(which int) ([]byte, *ecdsa.PrivateKey) {
@@ -58,7 +59,14 @@ func TestKeyPair(which int) ([]byte, *ecdsa.PrivateKey) {
 		}
 		priv = k
 	} else {
-		k, err := ecdsa.GenerateKey(elliptic.P256(), rand.Reader)
+		var k *ecdsa.PrivateKey
+		var err error
+		if which == 2 {
+			// a DIFFERENT certificate for the SAME key as certificate 0
+			_, k = TestKeyPair(0)
+		} else {
+			k, err = ecdsa.GenerateKey(elliptic.P256(), rand.Reader)
+		}
 		if err != nil {
 			panic(err)
 		}
